@@ -292,6 +292,39 @@ theorem userdir_percent_home_witness :
       ∧ ¬ inside cfg.rootDir [[115, 114, 118], [101, 118, 105, 108], [102]] := by
   decide
 
+/-- the PROPOSED FIX of `_expand_userdirs` (unescape, expand, escape the remainder) maps canonical
+paths to canonical paths for EVERY expander — no condition on the home directories is left -/
+theorem userdir_fixed_canon (expander : Bytes → Bytes) (base p : Bytes) (hp : Canon p) :
+    Canon (expandUserdirsFx expander base p) := by
+  unfold expandUserdirsFx
+  split
+  · cases unescape p with
+    | error e => exact hp
+    | ok fs =>
+      simp only []
+      split
+      · exact canon_escape _
+      · exact hp
+  · exact hp
+
+/-- with the proposed fix containment behind the userdir filter holds for every expander, i.e. for
+arbitrary home directories (compare `userdir_percent_home_witness`) -/
+theorem userdir_fixed_locate_inside (rootDir : List Seg) (base : Bytes) (expander : Bytes → Bytes)
+    (cloneStk : List Seg) (rel : Bytes) (loc : List Seg)
+    (hs : ∀ s ∈ cloneStk, GoodSeg Canon s) (hr : Canon rel)
+    (h : locate { rootDir := rootDir, basePath := some base,
+                  filter := expandUserdirsFx expander base } cloneStk rel = .ok loc) :
+    inside rootDir loc :=
+  locate_canon_inside _ cloneStk rel loc (fun p hp => userdir_fixed_canon expander base p hp) hs hr h
+
+/-- the home directory of `userdir_percent_home_witness` under the proposed fix: `~/f` stays inside -/
+example :
+    locate { rootDir := [[115, 114, 118], [114, 111, 111, 116]], basePath := some [47, 115, 114, 118, 47, 114, 111, 111, 116, 47],
+             filter := expandUserdirsFx (expanduser [([], [47, 115, 114, 118, 47, 114, 111, 111, 116, 47, 46, 46, 37, 50, 70, 101, 118, 105, 108])])
+               [47, 115, 114, 118, 47, 114, 111, 111, 116, 47] } [] [46, 47, 126, 47, 102]
+      = .ok [[115, 114, 118], [114, 111, 111, 116], [46, 46, 37, 50, 70, 101, 118, 105, 108], [102]] := by
+  decide
+
 /-- the jail accepts a URL iff no jail is installed or the URL is an allowed
 base without its last character or has an allowed base as a prefix -/
 theorem jail_rejects_outside (allowed : Option (List Bytes)) (url : Bytes) :
@@ -364,6 +397,13 @@ theorem jail_url_inside_served (cfg : Cfg) (p rel : Bytes) (loc : List Seg)
       rw [hb] at ho
       simp only [] at ho
       exact osRel_inside tame_mild (combine_good tame_mild (stk := []) (by simp) (hf _ hcb)) ho
+
+/-- `_expand_userdirs` leaves every path that does not start with "~" alone (so hypothesis `hid`
+of `jail_allows_inside` holds for every URL path not starting with "~") -/
+theorem userdir_untouched_without_tilde (expander : Bytes → Bytes) (base p : Bytes)
+    (h : p.head? ≠ some TILDE) : expandUserdirs expander base p = p := by
+  unfold expandUserdirs
+  simp [h]
 
 /-- **the jail**: let the jail root be the transport cloned at the segments `J`
 (its `.base` is `pfx ++ cloneBase J`, its directory is the served directory
